@@ -68,6 +68,8 @@ def coq_op(o):
         return "ORename %s %s" % (cstring(o["d"]), cstring(o["d2"]))
     if t == "removeold":
         return "ORemoveOld %s %s" % (cstring(o["d"]), cz(o["cutoff"]))
+    if t == "tear":
+        return "OClose 0"      # placeholder: an environment step, applied by Check.tear_state (see tears_of)
     if t == "touch":
         return "OTouch %s %s %s %s %s" % (cstring(o["d"]), cstring(o["stamp"]), cstring(o["r8"]), "true" if o.get("c") else "false", cz(o["now"]))
     raise ValueError(t)
@@ -108,6 +110,11 @@ def coq_step(s):
                clist([cstring(d) for d in s["dirs"]]), clist([coq_file(f) for f in s["files"]])))
 
 
+def tears_of(h):
+    """(step index, bytes, mtime) of the environment steps `tear` of an executed history"""
+    return [(i, s["op"]["frag"], s["op"]["now"]) for i, s in enumerate(h["steps"]) if s["op"]["t"] == "tear"]
+
+
 def coq_hcase(h):
     return ("{| h_loc := %s; h_today := %s; h_nrec := %d; h_names := %s;\n   h_steps := %s |}"
             % (cstring(h["loc"]), cstring(h["today"]), h["nrec"],
@@ -140,7 +147,14 @@ def eval_shard(ctx, idx, hs, premises=True):
     """returns (mismatches, indices of the histories that satisfy every premise of the C06 theorems, error)"""
     hdr = HEADER + ("From BD.Hist Require Import CheckPrem.\n" if premises else "")
     txt = hdr + intern_strings("Definition cases : list hcase := [\n%s\n].\n" % ";\n".join(coq_hcase(h) for h in hs))
-    txt += "Definition M := Eval vm_compute in mismatches cases.\nPrint M.\n"
+    if any(tears_of(h) for h in hs):
+        # histories with environment steps (tear): outside the op language of the theorems - correspondence only, no premises
+        premises = False
+        txt += "Definition tears : list (list (nat * Z * Z)) := %s.\n" % clist(
+            [clist(["(%d, %s, %s)" % (i, cz(n), cz(now)) for i, n, now in tears_of(h)]) for h in hs])
+        txt += "Definition M := Eval vm_compute in mismatches_t (combine cases tears).\nPrint M.\n"
+    else:
+        txt += "Definition M := Eval vm_compute in mismatches cases.\nPrint M.\n"
     if premises:
         txt += "Definition P := Eval vm_compute in premises_hold cases.\nPrint P.\n"
     rc, out, dt = vlib.coq_eval(ctx.scratch, "cases_hist_%s" % idx, txt)
@@ -158,7 +172,9 @@ COMPONENT = {1: "latest (W)", 2: "latest (R0)", 3: "latest today (R1)", 4: "rece
 def model_check(ctx, hs, shard=6, workers=14, premises=True, tag=""):
     """Replays the histories on the Coq model; returns ([(history, step, name index, component)] of mismatches,
     [histories on which every premise of the C06 theorems holds])."""
-    shards = [hs[i:i + shard] for i in range(0, len(hs), shard)]
+    plain = [h for h in hs if not tears_of(h)]
+    torn = [h for h in hs if tears_of(h)]
+    shards = [plain[i:i + shard] for i in range(0, len(plain), shard)] + [torn[i:i + shard] for i in range(0, len(torn), shard)]
     bad, prem = [], []
     with ThreadPoolExecutor(max_workers=workers) as ex:
         results = list(ex.map(lambda t: eval_shard(ctx, "%s%d" % (tag, t[0]), t[1], premises), enumerate(shards)))
@@ -300,6 +316,9 @@ class Monitor:
         elif t == "write":
             if self.cur is not None and self.cur in self.runs:
                 self.cur.sts.append((self.cur.req, o["tag"]))
+        elif t == "tear":
+            # the recorder died in the middle of a line: the fragment is no status; the run keeps what it had and has no writer any more
+            self.cur = None
         elif t == "close":
             self.cur = None
         elif t == "update":
@@ -390,7 +409,7 @@ class Monitor:
         if t == "rename":
             mine.add(dirname_of(add_yaml(o["d"])))
             mine.add(dirname_of(add_yaml(o["d2"])))
-        if t in ("write", "close") and self.cur is not None:
+        if t in ("write", "close", "tear") and self.cur is not None:
             mine.add(dirname_of(self.cur.d))
 
         def key(f):
